@@ -93,6 +93,14 @@ def denial_family(ctx, thorough, focus=""):
             ctx._distinct.add("ecsdenial:" + k)
     if len(out) < 30:
         raise vf.MachineryError("EcsDenial simulation produced only %d behaviours" % len(out))
+    # directed (audit aud19; not a shape of EcsDenial.tla yet): the subnet option rides in the FIRST of two OPT records.
+    # edns.hasClientECS and cache.hasEDNSClientSubnet read only the OPT IsEdns0 selects (the last), SetEdns0 then drops the
+    # first: the marker is never set and the query consumes / creates shared denials.  C19_DUP_OPT_DENIAL=0 leaves them out.
+    import os
+    if os.environ.get("C19_DUP_OPT_DENIAL", "1") == "1" and not focus:
+        plain = {"kind": "plain", "born": "msg", "do": True, "ad": False, "shape": "", "out": "", "sub": False, "cut": False}
+        dup = dict(plain, kind="ecs", shape="dup")
+        out = out + [{"steps": [plain, dup]}, {"steps": [dup, plain]}]
     res = ctx.go_driver("./c19", "TestEcsDenialBypass", {"behaviours": out, "focus": focus}, name="ecs_denial", timeout=900)
     ctx.take_driver_result(res, "[EcsDenial] ")
     cnt = res.get("counters", {})
@@ -194,6 +202,51 @@ def resolver_scope_observation(ctx):
                                          sorted(k.split("/", 1)[1] for k in cnt if k.startswith("authority_saw_client_subnet/"))), flush=True)
 
 
+FLIGHT_CASES = [  # (leader, follower, late) as (index into ADDRS, announced bits); one per branch of EcsFlight!Arrive x leader kind
+    ((0, 24), (4, 0), (3, 0)),      # follower announces nothing: as built it rides the leader's flight and files its answer as shared
+    ((0, 24), (1, 24), (2, 24)),    # follower of the leader's own /24: shares legitimately; a late client of another /24
+    ((0, 24), (2, 24), (4, 0)),     # follower of another /24
+    ((4, 0), (0, 24), (1, 24)),     # leader announces nothing, follower does
+    ((0, 32), (5, 0), (1, 32)),     # leader's /32 is clamped to /24; plain follower; late client of the leader's /24
+    ((0, 16), (3, 0), (5, 16)),     # a /16 leader; late client of the same /16
+]
+
+
+def flight_family(ctx, thorough):
+    """EcsFlight.tla: the audience clause across the resolver's shared wire look-up (groupLookup).  A follower is handed a
+    copy of the leader's response; its own cache writer files it by ITS request - a follower that announced no subnet
+    compares no echo, reads no scope and files the leader's tailored answer under the shared key.  C19_FLIGHT_STRICT=0
+    demotes the verdict to an observation."""
+    import os
+    ctx.tlc("Ecs", "MC_EcsFlight.tla", "MC_EcsFlight.cfg", workers=4, timeout=600, heap="4g")
+    # negative twins: the flight key as built (question | zone | CD | servers: everybody shares) must refute the audience
+    # property; somebody does share a flight in the specified model (same announced subnet)
+    for cfg, want in (("MC_EcsFlight_asbuilt.cfg", ("ServedWithinScope", "SharedEntryNeverScoped")), ("MC_EcsFlight_reach.cfg", ("NobodyJoins",))):
+        r = ctx.tlc("Ecs", "MC_EcsFlight.tla", cfg, workers=4, timeout=300, heap="2g", must_pass=False, count=False, tag="must-fail")
+        if r.violated not in want:
+            raise vf.MachineryError("%s: expected %s to fail, got %r" % (cfg, want, r.violated))
+    judge = os.environ.get("C19_FLIGHT_STRICT", "1") == "1"
+    cases = [{"leader": {"c": l[0], "sent": l[1]}, "follower": {"c": f[0], "sent": f[1]}, "late": {"c": t[0], "sent": t[1]}}
+             for l, f, t in FLIGHT_CASES]
+    for c in cases:
+        ctx._distinct.add("ecsflight:%r" % (c,))
+    res = ctx.go_driver("./c19", "TestResolverFlightAudience", {"judge": judge, "fwdMax": 24, "addrs": ADDRS, "cases": cases},
+                        name="resolver_flight", timeout=600)
+    cnt = res.get("counters", {})
+    ctx.cov["replay"]["resolver_flight"] = {"cases": res["cases"], "counters": cnt}
+    if res.get("skipped"):
+        raise vf.MachineryError("resolver flight replay skipped: %s" % res["skipped"][:3])
+    if res["cases"] != len(cases):
+        raise vf.MachineryError("resolver flight replay ran %d of %d cases" % (res["cases"], len(cases)))
+    if cnt.get("tailored_answer_inside_scope/leader", 0) < 3 and not res.get("violations"):
+        raise vf.MachineryError("vacuous: the authority hardly ever tailored an answer (%s)" % cnt)
+    if judge:
+        ctx.take_driver_result(res, "[resolver flight] ")
+    elif cnt.get("scoped_answer_served_outside_its_scope", 0):
+        print("OBSERVATION property=C19 resolver mode with [ecs] enabled: %d replies carried an answer tailored to another "
+              "subnet (shared wire look-up, groupLookup key without the subnet option)" % cnt["scoped_answer_served_outside_its_scope"], flush=True)
+
+
 def replay_record(ctx, rec):
     """--replay of a violation recorded by the Ecs driver: the recorded history alone."""
     rp = rec.get("replay", rec)
@@ -202,6 +255,13 @@ def replay_record(ctx, rec):
         ctx.tlc("Ecs", "MC_EcsDenial.tla", "MC_EcsDenial.cfg", workers=2, timeout=300, heap="2g")
         test = "TestEcsDenialBypass" if rp["driver"] == "ecs-denial" else "TestEcsDenialResolver"
         res = ctx.go_driver("./c19", test, {"behaviours": [{"steps": rp["steps"]}], "focus": ""}, name="ecs_denial_replay_file", timeout=600)
+        ctx.take_driver_result(res, "[replay] ")
+        ctx.cov["replay"]["replayed_file"] = {"cases": res["cases"], "driver": rp["driver"]}
+        return True
+    if isinstance(rp, dict) and rp.get("driver") == "resolver-flight" and rp.get("cases"):
+        ctx.tlc("Ecs", "MC_EcsFlight.tla", "MC_EcsFlight.cfg", workers=4, timeout=600, heap="4g")
+        res = ctx.go_driver("./c19", "TestResolverFlightAudience", {"judge": True, "fwdMax": rp.get("fwdMax", 24), "addrs": rp.get("addrs", ADDRS),
+                                                                     "cases": rp["cases"]}, name="resolver_flight_replay_file", timeout=600)
         ctx.take_driver_result(res, "[replay] ")
         ctx.cov["replay"]["replayed_file"] = {"cases": res["cases"], "driver": rp["driver"]}
         return True
@@ -230,6 +290,9 @@ def run(ctx, replay):
                        "by the real default chain; the upstream query seen by the scripted tail and the client reply are "
                        "judged by the ECS predicates")
     import os
+    if os.environ.get("VERIF_C19_ONLY") == "flight":     # development switch: the EcsFlight family alone
+        flight_family(ctx, thorough)
+        return
     if os.environ.get("VERIF_C19_ONLY") == "denial":     # development switch: the EcsDenial family alone
         denial_family(ctx, thorough)
         return
@@ -243,6 +306,7 @@ def run(ctx, replay):
     sc.relay_family(ctx, "C19", thorough)
     ecs_family(ctx, thorough)
     resolver_scope_observation(ctx)
+    flight_family(ctx, thorough)
     denial_family(ctx, thorough)
     # forwarder mode: what leaves toward a configured upstream carries no client option except the clamped ECS (Forward.tla)
     ctx.overlay_tags.add("x11fw")
